@@ -81,3 +81,4 @@ Qed.
     (0 1 2 3) per cell, resp. the two triangles (0 1 2) and (3 4 5) *)
 Lemma sq_face_cycle : map (cl1 sq_spec) [0; 1; 2; 3] = [1; 2; 3; 0]. Proof. reflexivity. Qed.
 Lemma tri_face_cycles : map (cl1 tri_spec) [0; 1; 2; 3; 4; 5] = [1; 2; 0; 4; 5; 3]. Proof. reflexivity. Qed.
+
